@@ -1052,3 +1052,20 @@ Proof.
               (nr B) U B (le_n _) HB HL) as (Hw & Hr & _ & E).
   now apply trsm_upper_left_complete.
 Qed.
+
+(** * 9. [ur_middle] replaces the call mzd_trtri_upper(u) by the substitution model.  That is what
+      mzd_trtri_upper does (base routine, no recursion) whenever blocksize^2 < 2*L3 — true in every
+      build, where blocksize = min(sqrt(L3), 2048): in the recursive model the call returns the
+      base routine's result on the spot. *)
+Lemma ur_middle_trtri_exact c U n : n <= blocksize c ->
+  (N.of_nat (blocksize c) * N.of_nat (blocksize c) < trtri_cut c)%N ->
+  let u := extract_u (msub U 0 0 n n) in trtri_upper_rec c u = Some (trtri_upper_simple u).
+Proof.
+  intros Hn Hc u. unfold trtri_upper_rec.
+  assert (Hr : nr u = n) by (unfold u, extract_u; cbn [nr nc msub map_rows]; apply Nat.min_id).
+  assert (Hcn : nc u = n) by (unfold u, extract_u; cbn [nr nc msub map_rows]; apply Nat.min_id).
+  rewrite Hr. destruct n as [|n'].
+  - reflexivity.
+  - cbn [trtri_rec]. rewrite Hr, Hcn.
+    destruct (N.ltb_spec (N.of_nat (S n') * N.of_nat (S n')) (trtri_cut c)); [reflexivity|nia].
+Qed.
